@@ -198,6 +198,35 @@ Theorem wrong_pw : forall (R : Z) (id user owner : bytes) (perm : Z) (kb : nat) 
 Proof. exact wrong_pw_legacy_l. Qed.
 Print Assumptions wrong_pw.
 
+(* wrong passwords, quantified over ALL candidate strings: the preparation (PDFDocEncoding) is a partial function
+   [prep : option bytes] of the candidate; where it is undefined the candidate is rejected outright, where it is
+   defined the premises of wrong_pw apply.  Hypothesis: the empty password does not already open the file. *)
+Theorem wrong_password_rejected : forall (R : Z) (id user owner : bytes) (perm : Z) (kb : nat) (pm : bool) (prep : option bytes) (c : cls),
+  (R = 2 \/ R = 3 \/ R = 4)%Z ->
+  let h := fst (create_legacy R id user owner perm kb pm) in
+  let uval q := u_cmp R (compute_U R id (file_key h q)) in
+  authenticate h [] = Err c ->
+  (forall p, prep = Some p ->
+     (forall q, q = pad_passwd p \/ q = recover_user h (pad_passwd p) -> uval q = uval (pad_passwd user) -> q = pad_passwd user) /\
+     (recover_user h (pad_passwd p) = pad_passwd user -> pad_passwd p = pad_passwd owner) /\
+     pad_passwd p <> pad_passwd user /\ pad_passwd p <> pad_passwd owner) ->
+  open_handler_prep h true prep = Err Auth.
+Proof. exact wrong_password_rejected_legacy_l. Qed.
+Print Assumptions wrong_password_rejected.
+
+Theorem wrong_password_rejected_r6 : forall (id user owner : bytes) (perm : Z) (pm : bool) (fkey usalt osalt fill : bytes) (h : handler) (prep : option bytes) (c : cls),
+  create6 id user owner perm pm fkey usalt osalt fill = Ok (h, fkey) ->
+  authenticate h [] = Err c ->
+  (forall p, prep = Some p ->
+     (forall x, slow_hash (trunc_passwd p) (slice 32 40 (hU h)) [] = Ok x -> bytes_eqb x (firstn 32 (hU h)) = true ->
+                trunc_passwd p = trunc_passwd user) /\
+     (forall x, slow_hash (trunc_passwd p) (slice 32 40 (hO h)) (hU h) = Ok x -> bytes_eqb x (firstn 32 (hO h)) = true ->
+                trunc_passwd p = trunc_passwd owner) /\
+     trunc_passwd p <> trunc_passwd user /\ trunc_passwd p <> trunc_passwd owner) ->
+  open_handler_prep h true prep = Err Auth.
+Proof. exact wrong_password_rejected_r6_l. Qed.
+Print Assumptions wrong_password_rejected_r6.
+
 (* ---- authentication, revision 6 ------------------------------------------------------------------- *)
 
 (* Algorithm 2.B always terminates within the fuel of the model and yields 32 bytes *)
@@ -320,6 +349,10 @@ Proof. intros _. repeat split; try reflexivity. left. split; [reflexivity|]. rep
 (* handler_shape holds of a handler made by the model's createStdSecHandler *)
 Example ex_handler_shape : handler_shape ex_h /\ choose_R (writer_V 2) 6 = Some (hR ex_h).
 Proof. split; [|reflexivity]. unfold handler_shape. vm_compute. repeat split; intros; discriminate || reflexivity. Qed.
+
+(* wrong_password_rejected: with a non-empty user password the empty attempt fails, and [None] needs no premise *)
+Example ex_empty_attempt_fails : authenticate ex_h [] = Err Auth /\ open_handler_prep ex_h true None = Err Auth.
+Proof. split; vm_compute; reflexivity. Qed.
 
 (* r6_inputs / create6 on an instance would need Algorithm 2.B under vm_compute (minutes); the extracted
    model runs exactly this in every check run (cases "c"/"a" with R = 6) *)
